@@ -38,6 +38,7 @@ struct Sim {
     fs: HashMap<String, (String, Vec<String>)>,
     fs_reads: Vec<J>,
     fs_count: HashMap<String, usize>,
+    display: bool,
     // C16 monitor (fed by the hook's event stream)
     mon: Monitor,
 }
@@ -257,7 +258,12 @@ fn printer(vm: &mut Vm, n: usize) -> Result<Value, Error> {
             }
         }
     }
-    push_event(json!(["print", enc(v, 0)]));
+    if SIM.with(|s| s.borrow().display) {
+        // plain `print(x)` of the repository's own scripts: the text a user would see
+        push_event(json!(["print", format!("{}", v)]));
+    } else {
+        push_event(json!(["print", enc(v, 0)]));
+    }
     Ok(Value::None)
 }
 
@@ -493,6 +499,11 @@ fn run_scenario(sc: &J) -> J {
             .and_then(|c| c.get("max_events"))
             .and_then(|m| m.as_u64())
             .unwrap_or(20000) as usize;
+        sim.display = sc
+            .get("config")
+            .and_then(|c| c.get("display"))
+            .and_then(|m| m.as_bool())
+            .unwrap_or(false);
         if let Some(t) = sc.get("tape").and_then(|t| t.as_array()) {
             sim.tape = t.iter().map(|x| x.as_i64().unwrap_or(0)).collect();
         }
